@@ -396,6 +396,7 @@ void execute_decode(const Plan& plan) {
     auto embed_site = [&](Label l) { size_t fs = (target != 0 && field_rng.chance(1, 4)) ? 4 : ptr_size; size_t at = a.offset(); if (a.embed_label(l, fs) == Error::kOk) sites.push_back(Site{1, a.current_section()->section_id(), at, at + fs, 0, l, false}); };
     auto mem_site = [&](Label l, int64_t disp) { size_t at = a.offset(); if (static_cast<x86::Assembler&>(a).mov(x86::eax, x86::dword_ptr(l, int32_t(disp))) == Error::kOk) sites.push_back(Site{2, a.current_section()->section_id(), at, a.offset(), uint64_t(disp), l, false}); };
     bool unreachable_jcc_possible = false;
+    auto emit_program = [&]() {
     for (const Op& op : plan.ops) {
       if (target != 2) {
         x86::Assembler& xa = static_cast<x86::Assembler&>(a);
@@ -467,6 +468,25 @@ void execute_decode(const Plan& plan) {
       if (target == 0 && r.chance(1, 2)) mem_site(l, int64_t(r.below(400)) - 200); else embed_site(l);
       sim::count("c04.probe.decode_backward_reference");
     }
+    };
+    // Optionally the holder has a history: the same program was assembled and relocated on it before, then the holder was
+    // recycled (reinit(), or reset() + init() + attach()). Nothing of that - address-table entries in particular - may
+    // influence what the second generation designates.
+    int prehistory = int(plan.get("prehistory", 0));
+    if (prehistory) {
+      emit_program();
+      Error pe = code.flatten();
+      if (pe == Error::kOk) pe = code.resolve_cross_section_fixups();
+      if (pe == Error::kOk) pe = code.relocate_to_base(base);
+      sim::logf("prehistory %d: first generation relocated with err=%u, %zu sites", prehistory, unsigned(pe), sites.size());
+      if (prehistory == 1) SIM_CHECK(code.reinit() == Error::kOk, "c04:setup", "reinit failed");
+      else { code.reset(ResetPolicy::kSoft); SIM_CHECK(code.init(Environment(arch), known ? base : Globals::kNoBaseAddress) == Error::kOk && code.attach(e.get()) == Error::kOk, "c04:setup", "init / attach after reset failed"); }
+      sites.clear(); labels.clear(); unreachable_jcc_possible = false; data_section = nullptr;
+      field_rng = sim::stream(plan.seed, "field");
+      if (plan.get("bind_section", 0)) SIM_CHECK(code.new_section(Out(data_section), ".data", SIZE_MAX, SectionFlags::kNone, 8, 1) == Error::kOk, "c04:setup", "new_section failed");
+      sim::count("c04.probe.decode_on_recycled_holder");
+    }
+    emit_program();
     Error err = code.flatten();
     if (err == Error::kOk) err = code.resolve_cross_section_fixups();
     // (relocate_to_base() is documented as "should never be called more than once": relocation ORs into zero fields.)
@@ -546,6 +566,7 @@ Plan generate_decode(uint64_t seed, bool thorough) {
   p.set("base_raw", int64_t(cfg.next() & 0x7ffffffffffff000ll));
   p.set("known_base", int64_t(cfg.below(2)));
   p.set("bind_section", int64_t(cfg.below(2)));
+  p.set("prehistory", int64_t(cfg.chance(1, 3) ? 1 + cfg.below(2) : 0));
   size_t n = size_t(1 + r.below(thorough ? 30 : 14));
   for (size_t i = 0; i < n; i++) {
     Op op; static const uint16_t ks[] = {kCallStub, kCallStub, kLocalTable, kRipData, kPad};
@@ -556,7 +577,7 @@ Plan generate_decode(uint64_t seed, bool thorough) {
 }
 
 void shrink(const Plan& p, std::vector<Plan>& out) {
-  static const char* const zero_keys[] = {"policy", "shift", "tail_jump", "tail_far", "data_section", "tail_section", "fn_section", "tables_early", "stub_far_mask", "known_base", "base_jitter", "bind_section"};
+  static const char* const zero_keys[] = {"policy", "shift", "tail_jump", "tail_far", "data_section", "tail_section", "fn_section", "tables_early", "stub_far_mask", "known_base", "base_jitter", "bind_section", "prehistory"};
   for (const char* k : zero_keys) if (p.get(k)) { Plan q = p; q.set(k, 0); out.push_back(q); }
 }
 
